@@ -62,6 +62,7 @@ def _case(draw, unit):
         'N': draw(st.sampled_from([1, 1, 2, 3])),
         'C': draw(st.sampled_from([1, 1, 2, 3])),
         'dtype': draw(st.sampled_from(['f64', 'f64', 'f64', 'f64', 'f32'])),
+        'wave_form': draw(st.sampled_from(['name', 'name', 'name', 'object', 'tuple'])),
         'rx': draw(core.recipe_strategy()),
         'k': draw(st.integers(0, 10**6)),
     }
@@ -71,11 +72,23 @@ def strategy(unit):
     return _case(unit)
 
 
+def wave_arg(case, kind='dec'):
+    """The documented forms of the `wave` argument: a name, a pywt.Wavelet, or a tuple of filter arrays."""
+    import pywt
+    form = case.get('wave_form', 'name')
+    if form == 'name':
+        return case['wave']
+    w = pywt.Wavelet(case['wave'])
+    if form == 'object':
+        return w
+    return (np.array(w.dec_lo), np.array(w.dec_hi)) if kind == 'dec' else (np.array(w.rec_lo), np.array(w.rec_hi))
+
+
 def _module(case):
     from pytorch_wavelets import DWT1DForward, DWTForward
     cls = DWT1DForward if case['dim'] == 1 else DWTForward
     with dwtu.default_dtype(dwtu.tdt(case['dtype'])):
-        return cls(J=case['J'], wave=case['wave'], mode=case['mode'])
+        return cls(J=case['J'], wave=wave_arg(case), mode=case['mode'])
 
 
 def _flat(yl, yh):
@@ -91,7 +104,7 @@ def run_case(case):
     per_axis = [dwtu.level_lengths(n, L, mode, J) for n in size]
     in_d1 = any(dwtu.d1_analysis(ns, L, mode) for ns, _ in per_axis)
     may_raise = any(dwtu.reflect_may_raise(ns, L, mode) for ns, _ in per_axis)
-    r.label('dim%d' % dim, mode, 'f32' if f32 else 'f64')
+    r.label('dim%d' % dim, mode, 'f32' if f32 else 'f64', 'wave_as_' + case.get('wave_form', 'name'))
     r.label('odd' if any(n % 2 for n in size) else None,
             'short<L' if any(n < L for n in size) else None,
             'J>=2' if J >= 2 else None, 'C>1' if case['C'] > 1 else None,
